@@ -62,10 +62,16 @@ def large_plan_walk(tier):
     from .sweep import seam
     sm = seam()
     viol, steps, scen = [], 0, 0
-    names = ["medium-gen", "large-gen", "huge-gen", "pocp-1-gen"] + (["pocp-2-gen"] if tier == "thorough" else [])
-    for name in names:
-        for seed in ((0, 1) if tier == "quick" else range(5)):
-            sc = nasim.make_benchmark_scenario(name, seed=seed)
+    names = ["medium-gen", "large-gen", "huge-gen", "pocp-1-gen", "pocp-2-gen"]
+    jobs = [(name, seed) for name in names for seed in ((0, 1) if tier == "quick" else range(5))]
+    jobs += [(("generate", 140, 3), 0)] + ([(("generate", 200, 2), 1)] if tier == "thorough" else [])
+    for name, seed in jobs:
+        if True:
+            if isinstance(name, tuple):
+                sc = nasim.generate_scenario(name[1], name[2], seed=seed, step_limit=None)
+                name = f"generate({name[1]},{name[2]})"
+            else:
+                sc = nasim.make_benchmark_scenario(name, seed=seed)
             spec = spec_from_scenario(sc, name=f"{name}-s{seed}")
             if any(not isinstance(h["os"], str) for h in spec["hosts"].values()):
                 continue
